@@ -1,5 +1,40 @@
 //! Chunked row files and a tiny seeded generator.
+use std::collections::HashSet;
+use std::hash::{Hash, Hasher};
 use std::io::{BufWriter, Write};
+use std::sync::Mutex;
+
+static TABLE: Mutex<String> = Mutex::new(String::new());
+
+/// Names the table being written: selects the rule that makes a row non-trivial.
+pub fn set_table(name: &str) {
+    *TABLE.lock().unwrap() = name.to_string();
+}
+
+/// A row is non-trivial when the call it records succeeded (accepted conversion, constructed
+/// message, ...) rather than being a plain rejection.
+fn nontrivial(table: &str, r: &[i64]) -> bool {
+    match table {
+        "short" => r.len() > 9,
+        "types" => r[0] != 0 || r[2] == 1,
+        "factory" | "pnmsg" => r[6] == 0,
+        "ints" => match r[0] {
+            0 | 2 => r[6] == 1,
+            5 => r[4] == 0,
+            6 => r[3] == 1,
+            _ => true,
+        },
+        "serde" => match r[0] {
+            0 | 1 => r[5] == 1,
+            2 | 3 => r[4] == 1,
+            4 => r[7] == 1,
+            5 => r[5] == 1,
+            6 => r[2] == 1,
+            _ => true,
+        },
+        _ => true,
+    }
+}
 
 pub struct ChunkWriter {
     dir: String,
@@ -7,15 +42,33 @@ pub struct ChunkWriter {
     k: usize,
     n_in: usize,
     total: u64,
+    table: String,
+    seen: HashSet<u64>,
+    distinct_nontrivial: u64,
     w: Option<BufWriter<std::fs::File>>,
 }
 
 impl ChunkWriter {
     pub fn new(dir: &str, per: usize) -> ChunkWriter {
         std::fs::create_dir_all(dir).unwrap();
-        ChunkWriter { dir: dir.to_string(), per, k: 0, n_in: 0, total: 0, w: None }
+        ChunkWriter {
+            dir: dir.to_string(),
+            per,
+            k: 0,
+            n_in: 0,
+            total: 0,
+            table: TABLE.lock().unwrap().clone(),
+            seen: HashSet::new(),
+            distinct_nontrivial: 0,
+            w: None,
+        }
     }
     pub fn push(&mut self, row: &[i64]) {
+        let mut h = std::collections::hash_map::DefaultHasher::new();
+        row.hash(&mut h);
+        if self.seen.insert(h.finish()) && nontrivial(&self.table, row) {
+            self.distinct_nontrivial += 1;
+        }
         if self.w.is_none() || self.n_in >= self.per {
             if let Some(mut w) = self.w.take() {
                 w.flush().unwrap();
@@ -41,6 +94,8 @@ impl ChunkWriter {
         if let Some(mut w) = self.w.take() {
             w.flush().unwrap();
         }
+        // measured, for the evidence: distinct rows that are non-trivial by the rule above
+        println!("{{\"distinct_nontrivial\":{}}}", self.distinct_nontrivial);
         (self.k, self.total)
     }
 }
